@@ -1,6 +1,8 @@
 #!/venv/bin/python
 """./check <id> [--tier quick|thorough] [--replay file]   (see DESIGN.md section 2.3)"""
 import argparse
+import faulthandler
+import signal
 import importlib
 import os
 import shutil
@@ -12,6 +14,7 @@ import common  # noqa: E402
 
 
 def main():
+    faulthandler.register(signal.SIGUSR1)      # kill -USR1 <pid> dumps the Python stack (diagnosing a stuck run)
     ap = argparse.ArgumentParser()
     ap.add_argument("pid")
     ap.add_argument("--tier", default=os.environ.get("VERIF_TIER", "quick"))
